@@ -99,15 +99,13 @@ def plan_C01(tier, seed):
                 jobs.append(closed("%s_n%d_a7" % (kind, n), kind, n, salpha={-3, -2, -1, 0, 1, 2, 3}, m=MULTS[(n + 1) % 5]))
     # sampled large periods on seeded streams (TLC as oracle along a Python-chosen script)
     rng = random.Random(seed * 7919 + 1)
-    nsamp = 4 if tier == "quick" else 24
-    periods = sorted(set([rng.choice([6, 7, 8, 9, 10, 12, 14, 16, 20, 26, 33, 50, 64, 100, 128, 200, 255, 256, 257, 512, 1000, 1024])
-                          for _ in range(nsamp)] + ([1024] if tier == "thorough" else [])))
-    for k, n in enumerate(periods):
-        kind = WINDOWED[(k + seed) % len(WINDOWED)]
-        kinds = [kind] if tier == "quick" else [kind, WINDOWED[(k + seed + 3) % len(WINDOWED)]]
-        for kd in kinds:
-            length = min(3 * n + 50, 1300 if tier == "quick" else 3200)
-            xs = stream_patterns(rng, length, -30, 30)
+    pool = list(range(6, 65)) + [100, 127, 128, 129, 200, 255, 256, 257, 500, 512, 1000, 1023, 1024]
+    for kd in WINDOWED:
+        # per kind: seeded periods beyond the exhaustive range (a path that is special for one period, a power of two, ... )
+        periods = sorted(set(rng.sample(pool, 3 if tier == "quick" else 14) + ([1024] if tier == "thorough" else [])))
+        for n in periods:
+            length = min(3 * n + 50, 1000 if tier == "quick" else 3200)
+            xs = stream_patterns(rng, length, -30, 30, lively=(n % 2 == 0))
             script = [new_op(1)] + [s_op(1, x) for x in xs]
             jobs.append(scripted("%s_big_n%d" % (kd, n), {1: cfg(kd, n, m=rng.choice(MULTS))}, script))
     # long runs of short periods (thousands of wrap-arounds; accumulators that resynchronise periodically)
@@ -119,7 +117,7 @@ def plan_C01(tier, seed):
             script = [new_op(1)] + [s_op(1, x) for x in xs]
             jobs.append(scripted("%s_long%d_n%d" % (kind, rep, n), {1: cfg(kind, n, m=rng.choice(MULTS))}, script))
     return {
-        "jobs": jobs,
+        "min_by_kind": {"kinds": WINDOWED, "values": 1000}, "jobs": jobs,
         "parallel": 12,
         "exhaustive": False,
         "rule": "closed TaSystem models (every reachable (ring contents, cursor, counter) state and every transition out of it) for "
@@ -196,7 +194,7 @@ def plan_C02(tier, seed):
         xs = stream_patterns(rng, length, -9, 9, lively=True)
         jobs.append(scripted("EMA_long%d_n%d" % (rep, n), {1: cfg("EMA", n)}, [new_op(1)] + [s_op(1, x) for x in xs], noovf=False, invariants=inv))
     return {
-        "jobs": jobs, "parallel": 12,
+        "min_by_kind": {"kinds": ["EMA", "TR", "ATR", "MACD", "KC", "CE"], "values": 1000}, "jobs": jobs, "parallel": 12,
         "rule": "depth-bounded exhaustive TaSystem models (all input sequences over the alphabet while the exact rational fits 32 bits) for "
                 "EMA, TR, ATR, MACD, KC, CE over periods {1..5,7}, period triples from {1,2,3,5}^3 and multipliers {2,1/2,0,3,-1}; scalar "
                 "alphabet {-2..2}, bar alphabet = all bars low<=close<=high over three price levels (every TrueRange branch in every order); "
@@ -288,7 +286,7 @@ def plan_C03(tier, seed):
         jobs.append(scripted("%s_long_n%d" % (kind, n), {1: cfg(kind, n, n2=rng.choice([1, 3]), n3=rng.choice([1, 3]))}, [new_op(1)] + ops,
                              noovf=False, invariants=inv))
     return {
-        "jobs": jobs, "parallel": 12,
+        "min_by_kind": {"kinds": OSC, "values": 500}, "jobs": jobs, "parallel": 12,
         "rule": "closed TaSystem models for FAST_STOCH, ROC, ER, CCI, MFI (periods 1..5 / 1..4 / 1..3) and depth-bounded exhaustive ones for "
                 "RSI (four seed/unit pairs), SLOW_STOCH, PPO (period triples), OBV; positive scalar alphabet {1,2,3}, bar alphabet of 9 valid "
                 "bars with close != (high+low)/2, repeated typical prices and volume 0/1/2; one behaviour per transition; sampled periods up to "
@@ -345,21 +343,38 @@ def plan_C04(tier, seed):
     jobs = []
     inv = ("Refines", "Safe", "ResetToInit")
     for kind in ALL22:
-        for n in ((1, 2, 3) if q else (1, 2, 3, 4)):
+        for n in ((1, 2) if q else (1, 2, 3, 4)):
             if kind in ("TR", "OBV") and n > 1:
                 continue
             c = kcfg(kind, n, alt=n)
-            sa, ba = free_alpha(kind, with_big=(n <= 2))
-            if kind in BAR_ONLY and n >= 3:
+            sa, ba = free_alpha(kind, with_big=(n <= (1 if q else 2)))
+            if kind in BAR_ONLY and n >= (2 if q else 3):
                 ba = ba[:5]
+            # every continuation is explored from every reachable state (the view keeps the history while a continuation
+            # runs), so the quick tier takes two continuations and the thorough tier four
             conts = [[{"op": "reset", "i": 1}] + ct for ct in continuations(kind, n)]
+            if q:
+                conts = [conts[0], conts[2]]
             unb = kind in UNBOUNDED
             depth = (n + 3 if q else n + 4) if unb else 10**6
             if kind in BAR_ONLY and n >= 2:
                 depth = min(depth, n + 4 + (0 if q else 1))
-            jobs.append(Job("%s_n%d" % (kind, n), {1: c}, salpha=sa, balpha=ba, toks=(TOKS4 if n <= 2 else {"NaN"}), resets={1},
+            toks = ({"NaN", "PInf"} if n == 1 else {"NaN"}) if q else (TOKS4 if n <= 2 else {"NaN"})
+            jobs.append(Job("%s_n%d" % (kind, n), {1: c}, salpha=sa, balpha=ba, toks=toks, resets={1},
                             conts=conts, maxdepth=depth + n + 3, noovf=False, invariants=inv,
                             extra_defs="FreeDepth == FreeDepthOf(%d)" % depth, extra_cfg="CONSTRAINT FreeDepth"))
+    if q:
+        # period 3 (a ring that wraps with room for stale slots) on a two-letter alphabet, one continuation
+        for kind in ALL22:
+            if kind in ("TR", "OBV"):
+                continue
+            sa, ba = free_alpha(kind)
+            sa = {1, 3} if sa else sa
+            ba = ba[:3] if ba else ba
+            conts = [[{"op": "reset", "i": 1}] + continuations(kind, 3)[2]]
+            depth = 6 if (kind in UNBOUNDED or kind in BAR_ONLY) else 10**6
+            jobs.append(Job("%s_n3" % kind, {1: kcfg(kind, 3, alt=3)}, salpha=sa, balpha=ba, toks={"NaN"}, resets={1}, conts=conts, maxdepth=depth + 6,
+                            noovf=False, invariants=inv, extra_defs="FreeDepth == FreeDepthOf(%d)" % depth, extra_cfg="CONSTRAINT FreeDepth"))
     # deep random histories: thousands of ops with non-finite values, spikes and repeated resets
     for kind in ALL22:
         for rep in range(1 if q else 3):
@@ -380,7 +395,7 @@ def plan_C04(tier, seed):
                     ops.append({"op": "reset", "i": 1})
             jobs.append(scripted("%s_deep%d_n%d" % (kind, rep, n), {1: c}, ops, noovf=False, invariants=inv))
     return {
-        "jobs": jobs, "parallel": 12,
+        "min_by_kind": {"kinds": ALL22, "relational": 300}, "jobs": jobs, "parallel": 12,
         "rule": "for each of the 22 kinds and periods 1..3 (1..4 thorough): free TaSystem exploration over {1,2,3} (+ a 10^6 spike, + NaN/+-inf/f64::MAX "
                 "tokens, + reset) reaches every ring/cursor/counter state of the implementation-shaped model, including tainted ones; from EVERY such state "
                 "reset() followed by four fixed continuations of n+2 fresh values is explored; every transition is replayed: the real instance after "
@@ -412,8 +427,13 @@ def plan_C05(tier, seed):
                 continue
             a = kcfg(kind, n, alt=3)
             sa, ba = free_alpha(kind)
+            if q and n == 3:          # quick: period 3 on a two-letter alphabet
+                sa = {1, 3} if sa else sa
+                ba = ba[:3] if ba else ba
+            if q and n == 2 and ba:
+                ba = ba[:5]
             conts = []
-            for ct in continuations(kind, n):
+            for ct in (continuations(kind, n)[::2] if q else continuations(kind, n)):
                 c2 = [{"op": "clone", "i": 1, "j": 2}]
                 other = continuations(kind, n, i=3)[0]
                 for k, o in enumerate(ct):
@@ -425,13 +445,13 @@ def plan_C05(tier, seed):
                             maxdepth=depth + 3 * n + 12, noovf=False, invariants=inv, extra_defs="FreeDepth == FreeDepthOf(%d)" % (depth + 1),
                             extra_cfg="CONSTRAINT FreeDepth", threads=16, free_ids={1}))
     return {
-        "jobs": jobs, "parallel": 12,
+        "min_by_kind": {"kinds": ALL22, "relational": 300}, "jobs": jobs, "parallel": 12,
         "rule": "per kind: (a) every interleaving (depth-bounded, no state merging) of feeds to an original, its clone taken at any point, an unrelated "
                 "instance of another period and a late fresh instance; (b) a clone taken at every reachable state of the closed model followed by "
                 "interleaved continuations; replayed on 16 threads; any two real instances with the same configuration and literal history must "
                 "return bit-identical outputs, within a behaviour, across behaviours and across threads, and equal the spec's value",
         "assumptions": COMMON_ASSUME + ["real thread schedules are observed, not controlled; instances are never shared between threads"],
-        "stages": [trace_stage_factory(threads=16, ops_quick=600, ops_thorough=3000, faults=False)],
+        "stages": [trace_stage_factory(threads=16, ops_quick=350, ops_thorough=3000, faults=False)],
     }
 
 
@@ -448,8 +468,15 @@ def plan_C06(tier, seed):
             sa, ba = free_alpha(kind, with_big=(n == 1))
             if kind in BAR_ONLY and n >= 3:
                 ba = ba[:5]
+            if q and n == 3:          # quick: period 3 on a two-letter alphabet
+                sa = {1, 3} if sa else sa
+                ba = ba[:3] if ba else ba
+            if q and n == 2 and ba:
+                ba = ba[:5]
             conts = []
             for k, ct in enumerate(continuations(kind, n)):
+                if q and k == 3:
+                    continue
                 head = [{"op": "save", "i": 1, "s": 1}, {"op": "restore", "s": 1, "j": 2}]
                 if k == 1:   # just reset
                     head = [{"op": "reset", "i": 1}] + head
@@ -491,7 +518,7 @@ def plan_C06(tier, seed):
             ids = {i: a for i in range(1, nxt)}
             jobs.append(scripted("%s_long%d_n%d" % (kind, rep, n), ids, ops, slots={1}, noovf=False, invariants=inv))
     return {
-        "jobs": jobs, "parallel": 12,
+        "min_by_kind": {"kinds": ALL22, "relational": 300}, "jobs": jobs, "parallel": 12,
         "rule": "for each of the 22 kinds and periods 1..3 (1..4 thorough): from EVERY reachable state of the closed model (fresh, warming, full, wrapped, "
                 "just reset) the instance is serialized with bincode and deserialized (once, or twice in a row), and original and copies are fed four "
                 "fixed continuations of n+2 values; plus seeded long histories with random checkpoints where all copies continue for hundreds of steps; "
@@ -545,6 +572,7 @@ def plan_C10(tier, seed):
     return {
         "jobs": jobs, "parallel": 12,
         "min_counts": {"effective_input_compared": 22 * 100},
+        "min_by_kind": {"kinds": ALL22, "relational": 100},
         "rule": "per kind, seeded scripted behaviours in which a bar stream with five independently varying fields (not only consistent OHLC) is fed to one "
                 "instance, the same bars with every field the kind is NOT documented to read perturbed to a second, the documented field as a scalar to a third, "
                 "and scalar vs one-price bars to a fourth and fifth; TLC executes TaSystem along the script and supplies Eff(kind, input) -- the numbers the kind is "
@@ -619,7 +647,7 @@ def plan_C07(tier, seed):
                 ops.insert(rng.randrange(len(ops)), {"op": "reset", "i": 1})
             jobs.append(scripted("%s_reg%d_n%d" % (kind, rep, n), {1: c}, [new_op(1)] + ops, noovf=False, invariants=inv))
     return {
-        "jobs": jobs, "parallel": 12,
+        "min_by_kind": {"kinds": RANGED, "relational": 1000}, "jobs": jobs, "parallel": 12,
         "rule": "closed / depth-bounded TaSystem models of RSI, FAST_STOCH, SLOW_STOCH, MFI, ER (spec invariant InRange: the reference is inside the documented "
                 "range whenever defined) replayed per transition, plus seeded regime streams (trending, one-tick oscillation, gaps, nearly flat, 10^6..10^9 spikes "
                 "followed by small monotone ticks, widely varying volume) of 6 000-40 000 steps; at every step at which the specification says the reference "
@@ -674,7 +702,7 @@ def plan_C08(tier, seed):
                 ops += flat_tail(kind, rng.choice([1, 3, 7, 9]), L, zero_volume=(kind in ("MFI", "OBV") and seg == 1))
             jobs.append(scripted("%s_flat%d_n%d" % (kind, rep, n), {1: a}, ops, noovf=False, invariants=inv))
     return {
-        "jobs": jobs, "parallel": 12,
+        "min_by_kind": {"kinds": ALL22, "relational": 300}, "jobs": jobs, "parallel": 12,
         "rule": "for each of the 22 kinds and periods 1..4 (1..5 thorough): from EVERY reachable state of the closed model (every cursor position and window content, "
                 "the empty prefix included) a flat stretch of n+3 inputs at three price levels (and a zero-volume stretch at moving prices for MFI/OBV) is explored; "
                 "plus seeded activity followed by flat stretches of 1 500-5 000 bars for periods 1..8, 14, 30; at every step at which the specification marks the "
@@ -774,7 +802,7 @@ def plan_C12(tier, seed):
             ops.append({"op": "drop", "i": i})
         jobs.append(scripted("%s_periods" % kind, ids, ops, noovf=False, invariants=inv))
     return {
-        "jobs": jobs, "parallel": 12,
+        "min_by_kind": {"kinds": ALL22, "relational": 1000}, "jobs": jobs, "parallel": 12,
         "rule": "(a) per kind and period 1..2 (1..3): EVERY sequence up to depth 4 (5) over {ordinary value, NaN, +inf, -inf, +-f64::MAX, subnormal, -0.0, reset, "
                 "bars with low > high / close outside} ; (b) per kind every period 1..64 (plus sampled ones up to 4096) run for 3*period+3 calls with faults injected at "
                 "varying cursor positions, then reset and reuse; spec invariant Safe (every ring index in range, counters within bounds) holds on all of them; in the "
@@ -815,7 +843,7 @@ def plan_C17(tier, seed):
                 ops = to_ops(kind, 1, xs[:total])
             jobs.append(scripted("%s_hist%d_n%d" % (kind, rep, n), {1: a}, [new_op(1)] + ops, noovf=False, invariants=inv))
     return {
-        "jobs": jobs, "parallel": 12,
+        "min_by_kind": {"kinds": ["SMA", "WMA", "SD", "MAD", "MIN", "MAX", "FAST_STOCH", "BB", "CCI", "ROC", "ER", "MFI"], "values": 300}, "jobs": jobs, "parallel": 12,
         "rule": "for the 12 windowed kinds: every input sequence (no state merging) of length Memory+1 .. Memory+n+3 over {1,2,3, 10^6 spike} for periods 1..3 (1..4), and "
                 "seeded long histories with spikes; the specification's reference state IS the window of the last Memory(kind,p) inputs (n, or n+1 for ROC/ER/MFI), and the "
                 "transcribed algorithm is checked to refine it; for every behaviour the real instance fed the whole history is compared with a fresh real instance fed only "
@@ -1148,6 +1176,7 @@ def plan_C15(tier, seed):
     return {
         "jobs": jobs, "parallel": 12,
         "min_counts": {"wired_parts_compared": 9 * 500},
+        "min_by_kind": {"kinds": COMPOSITES, "relational": 300},
         "rule": "TaRef defines every composite twice: by its documented formula (RefStep) and as the composition of the reference semantics of its public parts "
                 "(PartsStep: SMA+SD for BB, EMA of FAST_STOCH, EMA of TR, three EMAs, EMA+ATR, MAX+MIN+ATR, SMA+MAD of the typical price); the invariant PartsAgree "
                 "is model-checked on closed / depth-bounded models; every transition and seeded streams of 3 000-15 000 inputs are replayed with the real composite "
@@ -1217,6 +1246,7 @@ def plan_C18(tier, seed):
     return {
         "jobs": jobs, "parallel": 8,
         "min_counts": {"heap_checked": 22 * 10000, "size_checked": 22 * 50},
+        "min_by_kind": {"kinds": ALL22, "relational": 10000},
         "rule": "per kind and stream shape (strictly falling, strictly rising, alternating, flat after activity, long falls with jumps, random) an intensional schedule "
                 "(Streams.tla, with ramp segments) of 10^5 (quick) / 10^6 (thorough) inputs for periods sampled from 1..512 is expanded into real calls; the net heap "
                 "bytes allocated inside next() (counting allocator, per thread) since construction must stay under SizeBound(kind, p) = 256 + 64 * sum of periods from the "
